@@ -224,6 +224,43 @@ def one_case(ctx, g, rng, length):
     return head + [items], impl, problems
 
 
+def views_outlive_the_callers_references(ctx, g, rng, n):
+    """LIFETIME: the caller holds only a BLOCK -- the interval was created inline, or the IR that was loaded is dropped -- and garbage
+    is collected: the block's views (address, bytes, membership of offsets and addresses) are still those of its interval."""
+    import gc
+    for k in range(n):
+        addr = rng.choice([0, 16, 4096, (1 << 64) - 64])
+        data = bytes(rng.randrange(256) for _ in range(rng.choice([4, 8, 12])))
+        off = rng.choice([0, 1, 2, len(data) - 1])
+        size = rng.choice([0, 1, 3, len(data)])
+        cls = g.CodeBlock if k % 2 else g.DataBlock
+        route = ("inline-interval", "built-ir-dropped", "loaded-ir-dropped")[k % 3]
+        if route == "inline-interval":
+            blk = cls(offset=off, size=size, byte_interval=g.ByteInterval(address=addr, size=len(data) + 4, contents=data))
+        else:
+            ir = g.IR()
+            bi = g.ByteInterval(address=addr, size=len(data) + 4, contents=data, section=g.Section(name="s", module=g.Module(name="m", ir=ir)))
+            blk = cls(offset=off, size=size, byte_interval=bi)
+            if route == "loaded-ir-dropped":
+                buf = io.BytesIO()
+                ir.save_protobuf_file(buf)
+                blk = g.IR.load_protobuf_file(io.BytesIO(buf.getvalue())).get_by_uuid(blk.uuid)
+            ir = bi = None
+        gc.collect()
+        edges = (off - 1, off, off + size - 1, off + size)
+        want = (addr + off, data[off:off + size], [off <= o < off + size for o in edges], [off <= o < off + size for o in edges])
+        try:
+            got = (blk.address, bytes(blk.contents), [blk.contains_offset(o) for o in edges], [blk.contains_address(addr + o) for o in edges])
+        except Exception as e:  # noqa: BLE001
+            got = ("raised", exc_name(g, e))
+        ctx.count("block_views_with_only_the_block_held:" + route)
+        ctx.case("lifetime:%s:%d:%d:%d:%s" % (route, addr, off, size, data.hex()), True)
+        if got != want:
+            ctx.add("oracle", "bytes:lifetime", "a block held alone (%s) after a garbage collection: address / contents / contains_offset / contains_address at the edges are %r, its interval says %r"
+                    % (route, got, want), {"route": route, "address": addr, "offset": off, "size": size, "contents": data.hex()})
+            return
+
+
 def loader_rejection(ctx, g, rng, n):
     """'construction and LOADING reject more stored bytes than the interval's size': a saved file is edited at message level so that
     one interval carries more bytes than its size (size lowered, or bytes appended) and loaded again -> ValueError, never an IR."""
@@ -264,6 +301,7 @@ def loader_rejection(ctx, g, rng, n):
 
 def run(ctx):
     g = gtirb_from_repo.load()
+    views_outlive_the_callers_references(ctx, g, ctx.rng, 30 if ctx.quick else 600)
     nc, ln = (300, 8) if ctx.quick else (6000, 14)
     loader_rejection(ctx, g, ctx.rng, 40 if ctx.quick else 600)
     cases = []
